@@ -130,6 +130,15 @@ Rows  == {[cur |-> c, st |-> s] : c \in CurKs, s \in Stmts}
 \*   faileduse_query  USE cur; USE <unknown keyspace>; QUERY st    (a failed USE changes nothing)
 Vias  == {"query", "prepare", "prepare_switch", "switch_query", "faileduse_query"}
 NoSuchKs == "nosuch"   \* a keyspace the backend does not have
+\* The failed-USE submission is exercised on a core of the statements only (every current keyspace;
+\* SELECT, INSERT and USE; unqualified, system and user qualifier; a system and a user table):
+\* what it adds is a property of the connection's keyspace, not of the statement, and on the current
+\* tree a failed USE is expensive for the replay (see the report of C09: it leaks a backend
+\* connection and can, rarely, kill the proxy).
+FailedUseStmts == {s \in Stmts : \/ s.kind = "USE"
+                                 \/ /\ s.name \in {"star", "insert"}
+                                    /\ s.qual \in {"", "system", "ks1"}
+                                    /\ s.table \in {"local", "t1"}}
 
 Ref(st)  == IF st.qual = "" THEN st.table ELSE st.qual \o "." \o st.table
 Text(st) == st.pre \o Ref(st) \o st.post
@@ -170,6 +179,7 @@ KsAfter(cur, st) == IF st.kind = "USE" THEN st.table ELSE cur
 
 -----------------------------------------------------------------------------
 Init == /\ row \in Rows /\ via \in Vias
+        /\ (via = "faileduse_query" => row.st \in FailedUseStmts)
         /\ pc = "setks" /\ ks = "" /\ prep = "none" /\ hist = <<>>
 
 \* the client establishes the row's current keyspace (a USE is answered by the proxy)
